@@ -408,8 +408,7 @@ def _exec_pomdp(pv, cfg, ctx, sched):
         n0 = len(sched.log)
         big = 25
         path, T = validate(run(big, rng, 'rollout#2'), big, 'rollout#2')
-        if path[-1] in pv.absorbing and start is not None:
-            # (with a sampled start the first draw may come from the global generator; F7 only with a given start)
+        if path[-1] in pv.absorbing:
             seg = [(e[0], e[1]) for e in sched.log[n0:]]
             cap3 = max(0, T + cfg['cap_rel'])
             sub = Scheduler('replay', script=seg, cap=10 ** 6)
